@@ -17,7 +17,7 @@ class C11(SessionCheck):
         n = 6 if tier == 'quick' else 60
         out = []
         for i in range(n):
-            out.append({'kind': 'e2e', 'sc': {'transport': 'tls' if (tier == 'thorough' and i % 4 == 3) else 'unix',
+            out.append({'kind': 'e2e', 'sc': {'transport': ['unix', 'ssh', 'unix', 'tls'][i % 4] if (tier == 'thorough' or i % 4 != 3) else 'unix',
                                               'profile': SG.PROFILES[i % len(SG.PROFILES)], 'threads': rng.randint(1, 3),
                                               'per_thread': rng.randint(1, 4), 'window': rng.randint(1, 3), 'notifs': rng.randint(1, 8),
                                               'seg': rng.choice(['random', 'whole', 'ones']), 'seed': rng.randrange(1 << 30)}})
